@@ -216,8 +216,8 @@ IMC = os.path.join(SPEC, "InvokeMC.tla")
 FMC = os.path.join(SPEC, "CompilerFrontMC.tla")
 INVOKE_BUGS = ["keepVolatile", "stackPacked", "noAl", "retWrongReg", "misalign", "dupArg", "noRestore", "wrongOrder"]
 INVOKE_ACTIONS = ["IArg", "IDef", "IArith", "IStore", "ICtl", "IMove", "IInvoke", "ILeave"]
-FRONT_BUGS = ["addFuncCursorEnd", "poolAfterEnd", "poolKept", "funcKept", "endCursorExit", "invokeStaleOut", "globalNotFlushed"]
-FRONT_ACTIONS = ["INewFunc", "IAddFuncNode", "IAddFunc", "IEndFunc", "IInvoke", "IEmit", "ISetCursor", "INewConst", "INewReg", "INewStack", "IFinalize"]
+FRONT_BUGS = ["addFuncCursorEnd", "poolAfterEnd", "poolKept", "funcKept", "endCursorExit", "invokeStaleOut", "globalNotFlushed", "reinitKeepsFunc", "reinitKeepsRegs"]
+FRONT_ACTIONS = ["INewFunc", "IAddFuncNode", "IAddFunc", "IEndFunc", "IInvoke", "IEmit", "ISetCursor", "INewConst", "INewReg", "INewStack", "IFinalize", "IReinit"]
 
 
 def imc_cfg(ctx, name, scen="MCScenarios", rets="MCRetVals", moves=1, bug="none", cov=False, checks="INVARIANTS ContractHolds Coherent OutCoherent OneHolder"):
